@@ -529,6 +529,10 @@ func fsmRandomConfig(rng *vRNG) fsmConfig {
 		if rng.Chance(3) {
 			cfg = fsmConfig{FPS: 9, Preview: 5, Trigger: 2, Min: 10, Max: 600}
 		}
+		if rng.Chance(2) {
+			// fast cameras: limits of a few thousand frames (seconds*fps*fps beyond 16 bits)
+			cfg = []fsmConfig{{FPS: 60, Preview: 1, Trigger: 2, Min: 20, Max: 25}, {FPS: 30, Preview: 2, Trigger: 1, Min: 75, Max: 100}, {FPS: 60, Preview: 0, Trigger: 1, Min: 19, Max: 19}}[rng.Intn(3)]
+		}
 		if cfg.cap() >= 1 {
 			return cfg
 		}
@@ -677,7 +681,7 @@ func TestVerif_FSM(t *testing.T) {
 		if rng.Chance(10) {
 			n = rng.Range(400, 2000)
 		}
-		if cfg.Max > 100 {
+		if cfg.Max > 100 || cfg.maxF() > 1000 {
 			n = 7000
 		}
 		evs := fsmRandomScript(rng, cfg, n, rng.Chance(70))
